@@ -24,7 +24,9 @@ import (
 	replicationv1 "go.temporal.io/server/api/replication/v1"
 	"go.temporal.io/server/client/history"
 	"go.temporal.io/server/common/log"
+	"google.golang.org/grpc/codes"
 	"google.golang.org/grpc/metadata"
+	"google.golang.org/grpc/status"
 	"google.golang.org/protobuf/proto"
 
 	"github.com/temporalio/s2s-proxy/config"
@@ -72,6 +74,9 @@ type vfFwdExec struct {
 	ending     string // first ending event
 	failIni    bool
 	failSrc    bool
+	srcDone    chan struct{} // closed when the source ends its stream (a blocked Send returns then)
+	blockSrc   bool          // the next Send towards the source blocks until the stream's context ends (window full, source silent)
+	srcBlocked bool
 	iniFailed  bool
 	srcFailed  bool
 	now        int
@@ -125,7 +130,7 @@ func vfFwdAck(i int) *adminservice.StreamWorkflowReplicationMessagesRequest {
 }
 
 func vfNewFwdExec(sc vfFwdScenario, openFail bool) *vfFwdExec {
-	e := &vfFwdExec{sc: sc, openFail: openFail}
+	e := &vfFwdExec{sc: sc, openFail: openFail, srcDone: make(chan struct{})}
 	client := history.ClusterShardID{ClusterID: 2, ShardID: 3}
 	server := history.ClusterShardID{ClusterID: 1, ShardID: 3}
 	e.ini = vfNewServerStream(client, server, nil)
@@ -160,6 +165,23 @@ func vfNewFwdExec(sc vfFwdScenario, openFail bool) *vfFwdExec {
 				e.srcFailed = true
 				e.logf("source: Send fails")
 				return errors.New("verif: send to source failed")
+			}
+			if e.blockSrc {
+				// gRPC: Send blocks on flow control until the stream's context is done
+				e.srcBlocked = true
+				e.logf("source: Send blocks (the source has stopped reading)")
+				// ... or the stream itself is finished (the peer ended it, the transport failed)
+				for !cs.ended && !cs.broken && cs.ctx.Err() == nil {
+					select {
+					case <-cs.ctx.Done():
+					case <-cs.brk:
+					case <-e.srcDone:
+					}
+				}
+				if cs.ctx.Err() != nil {
+					return status.Error(codes.Canceled, "verif: stream context cancelled while Send was blocked")
+				}
+				return io.EOF
 			}
 			e.gotAck = append(e.gotAck, m)
 			e.logf("source receives ack low=%d", m.GetSyncReplicationState().GetInclusiveLowWatermark())
@@ -228,9 +250,19 @@ func (e *vfFwdExec) enabled() []string {
 			out = append(out, "src:msg")
 		}
 		if e.ending == "" {
-			out = append(out, "src:eof", "src:err", "src:badmsg")
-			if !e.failSrc {
+			out = append(out, "src:eof", "src:err")
+			if !e.blockSrc {
+				// (with the relay's Send towards the source blocked, only events that finish a stream or cancel a context
+				// can unblock it - as in gRPC)
+				out = append(out, "src:badmsg")
+			}
+			if !e.failSrc && !e.blockSrc {
 				out = append(out, "sendfail:src")
+				if !e.failIni && !e.iniFailed {
+					// (a failing Send towards the initiator is not combined with a blocked one towards the source: in gRPC the
+					// former comes with a cancelled stream context, which this fake does not model)
+					out = append(out, "sendblock:src")
+				}
 			}
 		}
 	}
@@ -238,9 +270,11 @@ func (e *vfFwdExec) enabled() []string {
 		if len(e.sentAck) < e.sc.NAck {
 			out = append(out, "ini:ack")
 		}
-		if e.ending == "" {
+		if e.ending == "" && e.blockSrc {
+			out = append(out, "ini:err", "ini:cancel")
+		} else if e.ending == "" {
 			out = append(out, "ini:eof", "ini:err", "ini:cancel", "ini:badreq")
-			if !e.failIni {
+			if !e.failIni && !e.blockSrc {
 				out = append(out, "sendfail:ini")
 			}
 		}
@@ -265,6 +299,7 @@ func (e *vfFwdExec) apply(a string) error {
 		e.end(a)
 		e.logf("source ends the stream (EOF)")
 		e.src.ended = true
+		close(e.srcDone)
 		e.src.deliver(vfItem{err: io.EOF})
 	case "src:err":
 		e.end(a)
@@ -299,6 +334,8 @@ func (e *vfFwdExec) apply(a string) error {
 		e.failIni = true // the next Send towards the initiator fails (an ending event once it happens)
 	case "sendfail:src":
 		e.failSrc = true
+	case "sendblock:src":
+		e.blockSrc = true
 	case "adv":
 		e.now++
 		time.Sleep(time.Second)
@@ -332,7 +369,7 @@ func (e *vfFwdExec) check() {
 	if ok, why := vfPrefix(e.gotAck, e.sentAck); !ok {
 		e.violate("relay/acks-not-a-prefix", why)
 	}
-	ended := e.ending != "" || e.iniFailed || e.srcFailed
+	ended := e.ending != "" || e.iniFailed || e.srcFailed || e.srcBlocked
 	if !ended && e.opened {
 		if len(e.gotResp) != len(e.sentResp) {
 			e.violate("relay/response-not-delivered", fmt.Sprintf("nothing ended or failed, %d responses emitted, %d delivered at quiescence", len(e.sentResp), len(e.gotResp)))
@@ -358,7 +395,7 @@ func (e *vfFwdExec) key() string {
 	if e.sc.Sibling {
 		sib = fmt.Sprintf(" sib=%v/%v", e.sibEnded, e.sibIni != nil && e.sibIni.returned)
 	}
-	return sib + fmt.Sprintf("t=%d end=%s sr=%d gr=%d sa=%d ga=%d fi=%v fs=%v if=%v sf=%v ini=%v/%v/%v/%v src=%s open=%v",
+	return sib + fmt.Sprintf("bs=%v/%v ", e.blockSrc, e.srcBlocked) + fmt.Sprintf("t=%d end=%s sr=%d gr=%d sa=%d ga=%d fi=%v fs=%v if=%v sf=%v ini=%v/%v/%v/%v src=%s open=%v",
 		e.now, e.ending, len(e.sentResp), len(e.gotResp), len(e.sentAck), len(e.gotAck), e.failIni, e.failSrc, e.iniFailed, e.srcFailed,
 		e.ini.returned, e.ini.broken, e.ini.ctx.Err() != nil, e.ini.atHome(), srcState, e.opened)
 }
@@ -614,7 +651,7 @@ func TestVerifC06(t *testing.T) {
 	res.Set("distinct_outcomes", int64(len(outcomes)))
 	res.Set("exhaustive", exhaustive && len(harnessErrs) == 0)
 	res.Set("harness_errors", harnessErrs)
-	res.Set("alphabet", fmt.Sprintf("modes default,lcm; <=%d responses and <=%d sync-states; endings: source EOF/error/response without Messages, initiator EOF/error/context cancelled/request that is not SyncReplicationState, next Send to initiator fails, next Send to source fails, opening the source stream fails; 1 s time step", n, n))
+	res.Set("alphabet", fmt.Sprintf("modes default,lcm; <=%d responses and <=%d sync-states; endings: source EOF/error/response without Messages, initiator EOF/error/context cancelled/request that is not SyncReplicationState, next Send to initiator fails, next Send to source fails, next Send to source blocks until the stream's context ends, opening the source stream fails; 1 s time step", n, n))
 	res.Set("explanation", "every transition executes the real StreamWorkflowReplicationMessages -> handleStream -> StreamForwarder.Run in a synctest bubble; after every path the ending contract (handler returns, source stream closed and cancelled, no goroutine left) is checked; no separate model")
 	os := make([]string, 0, len(outcomes))
 	for o := range outcomes {
